@@ -83,6 +83,23 @@ pub fn op_rng(a: &[&str]) -> Res {
     Ok(vec![])
 }
 
+/// `rng64 <seed> <concatenated 64-byte blocks>`: as `rng`, with the full 64-byte blocks given (so that a block can be a
+/// non-zero multiple of q - reducing to the zero scalar - or have its low half zero).
+pub fn op_rng64(a: &[&str]) -> Res {
+    let seed = arg(a, 0)?.parse::<u64>().map_err(|e| e.to_string())?;
+    let mut r = TapeRng::new(seed);
+    let bytes = arg_bytes(a, 1)?;
+    if bytes.len() % 64 != 0 {
+        return Err("tape length".into());
+    }
+    for ch in bytes.chunks(64) {
+        let mut e = [0u8; 64];
+        e.copy_from_slice(ch);
+        r.tape.push_back(e);
+    }
+    RNG.with(|c| *c.borrow_mut() = r);
+    Ok(vec![])
+}
 /// `served`: the scalars served since the last `rng`, concatenated; and the number of tape entries left.
 pub fn op_served(_a: &[&str]) -> Res {
     RNG.with(|c| {
